@@ -66,6 +66,10 @@ def configs(tier, seed):
     if tier == "thorough":
         cfgs.append(dict(name="repeated vertex (4)", kind="free", V=[["0", "0"], ["1", "0"], ["1", "0"], ["1", "1"]],
                          knots=["0", "1", "2", "3"], floats=True))
+    # straight segments / polylines stored with a higher degree: same answers, and the operand keeps its representation
+    cfgs.append(dict(name="segment stored with degree 3, free point", kind="free", V=[["0", "0"], ["3", "1"]], knots=["0", "1"], floats=True, elevate=2))
+    cfgs.append(dict(name="polyline stored with degree 2, free point", kind="free", V=[["0", "0"], ["2", "0"], ["2", "2"]], knots=["0", "1", "2"],
+                     floats=True, elevate=1))
     return cfgs
 
 
@@ -95,6 +99,8 @@ def body(env, cfg):
     U = [knots[0]] + list(knots) + [knots[-1]]
     pts = [np.array(v, dtype=object if not env.floats else float) for v in V]
     curve = Curve(U, pts)
+    if cfg.get("elevate"):
+        curve.degree_increase(cfg["elevate"])  # the same polyline, stored with a higher degree (reducible by clean())
     snap = kmode.snapshot(curve)
     nseg = len(knots) - 1
     if cfg["kind"] == "on":
